@@ -43,7 +43,7 @@ CHECKS = {
         note="the registry is process-global; each case starts from reset", ref="DESIGN.md §3 C18"),
     "C01": dict(
         cat="exploration", technique="pre/post state monitor re-bound onto NestedSampler.consume_sample / populate_live_points / finalise in real runs",
-        text="Every replacement of every real run over a 32-cell (thorough: 43 cells x 6 seeds) configuration matrix is checked against a snapshot of the previous "
+        text="Every replacement of every real run over a 52-cell (thorough: 65 cells x 6 seeds plus 400 generated option combinations) configuration matrix is checked against a snapshot of the previous "
              "live set: removed point = previous minimum, all other rows byte-identical, recorded insertion index = slot occupied, new point strictly above, in bounds, "
              "finite prior, logL/logP equal to the raw user functions (8 ulp), ascending order, integral-state length; initial live set, finalise and an end-of-run trace "
              "check (monotone discards, no point recorded twice). A third of the runs are stopped abruptly and resumed from the last checkpoint; two cells are killed right after a training that an empty pool triggered while a replacement was being drawn, with checkpoint_on_training. Tie-prone model exercises "
@@ -53,7 +53,7 @@ CHECKS = {
         cat="exploration", technique="post-iteration monitor on the real INS loop re-evaluating every stored density from the saved flows with an independent logit/Jacobian",
         text="After update_evidence in every iteration, after finalise and right after every resume, for both the training and the independent sample set: each "
              "log_q[i,j] is recomputed from flow j (own logit + Jacobian), mixture weights are recomputed from the data (fraction of samples per proposal), logQ, logW, "
-             "logU, unit-hypercube membership and logL are compared; 50 INS configurations (incl. a prior without a bounds test with no reparameterisation, tie-prone and zero-likelihood-region models, likelihood offsets -2000 / +900) incl. MAF/NSF, no reparameterisation, clip, strict/soft, replace-all, variable "
+             "logU, unit-hypercube membership and logL are compared; 52 (thorough 60 x 8 seeds) INS configurations (incl. a prior without a bounds test with no reparameterisation, tie-prone and zero-likelihood-region models, likelihood offsets -2000 / +900) incl. MAF/NSF, no reparameterisation, clip, strict/soft, replace-all, variable "
              "draws, no i.i.d. set and 1-2 stop/resume cycles with and without saved tables (~2.8e6 density cells per quick run).",
         note="float32 tolerance 2e-4(1+|v|) on densities (flows run in float32); samples the map itself clamps are classified by a data predicate", ref="DESIGN.md §3 C03"),
     "C05": dict(
